@@ -61,6 +61,7 @@ def warm_quick():
   runs.append(('FrozenHeap', 'FrozenHeap_mc.cfg', dict(workers=16, timeout=1800)))
   runs.append(('FrozenHeap', 'FrozenHeap_small.cfg', dict(workers=1, timeout=1800)))
   runs.append(('StructNode', 'StructNode_mc.cfg', dict(workers=8, timeout=900)))
+  runs.append(('NnxUpdateCtx', 'NnxUpdateCtx_mc.cfg', dict(workers=16, timeout=1800)))
   runs.append(('NnxGraph', 'NnxGraph_mc.cfg', dict(workers=16, timeout=3000)))
   runs.append(('NnxGraph', 'NnxGraph_small.cfg', dict(workers=1, timeout=3000)))
   return runs
